@@ -134,9 +134,9 @@ CHECKS = {
     ),
     'C17': dict(
         category='other',
-        text='Weak fit, reduced scope: operator matrices of ChebychevHelper / UltrasphericalHelper (differentiation p<=3, integration, basis conversions and inverses, Dirichlet/Neumann/integral rows, integration weights, Kronecker expansion) for N=2..8(16), '
+        text='Weak fit, reduced scope: operator matrices of ChebychevHelper / UltrasphericalHelper / FFTHelper (differentiation p<=3, integration, basis conversions and inverses, Dirichlet/Neumann/integral rows, integration weights, Kronecker expansion) for N=2..8(16), '
              'reference and mapped intervals: per operator one SMT query over all coefficient vectors in the unit box against exact polynomial calculus in the monomial basis (T_n, U_n, Gegenbauer by exact recurrences - not the implementation formulas).',
-        note='Trusted: z3; tolerance 1e-10 scaled. NOT claimed: DCT/FFT transform round trips (C boundary), Fourier operators (only oracle = implementation formula), N>16. Known finding: N = 1 raises.',
+        note='Trusted: z3; tolerance 1e-10 scaled. NOT claimed: DCT/FFT transform round trips (C boundary), N>16. Fourier operators: analytic wavenumbers (float pi) plus formula-free inverse and covariance relations. Known finding: N = 1 raises.',
         design='4/C17', technique='tables from the real code as exact rationals + SMT (QF_LRA) against exact monomial-basis calculus',
     ),
     'C18': dict(
